@@ -375,6 +375,7 @@ def boundary_cases(tier):
     out.append(dict(kind="zeros", r=3, c=2))
     out.append(dict(kind="zeros", r=1, c=1))
     out.append(dict(kind="forms"))
+    out.append(dict(kind="dtypes"))
     out.append(dict(kind="names"))
     out.append(dict(kind="multi"))
     out.append(dict(kind="extra-input"))
@@ -416,6 +417,34 @@ def run_special(case, tier, res):
               "nearsym": np.array([[1.0, 2.0], [2.0 * (1 + 1e-13), 3.0]])}
         for nm, M in Ms.items():
             run_matrix(M, tier, res, dict(case, which=nm), forms=(None, 1, 2, 6))
+        return
+    if k == "dtypes":
+        # matrices held in any numeric dtype (integer, unsigned, bool, single precision, complex64), dense or scipy sparse:
+        # the file holds their VALUES (all exactly representable) in every layout
+        M0 = np.array([[1, 0, -3], [0, 200, 0], [7, 0, 5], [0, -128, 0]])
+        for dt in (np.int64, np.int32, np.int16, np.int8, np.uint8, np.uint16, np.uint32, np.float32, np.complex64, bool):
+            A = (M0 != 0) if dt is bool else (np.abs(M0) if np.dtype(dt).kind == "u" else (np.clip(M0, -128, 127) if dt is np.int8 else M0)).astype(dt)
+            if np.dtype(dt).kind == "c":
+                A = A * (1 + 0.5j)
+            want = np.asarray(A).astype(complex if np.dtype(dt).kind == "c" else float)
+            for binary, sparse, cont in itertools.product((True, False), ("dense", "bigmat", "nonbigmat"), ("ndarray", "csr", "coo", "fortran")):
+                X = A if cont == "ndarray" else np.asfortranarray(A) if cont == "fortran" else {"csr": sp.csr_matrix, "coo": sp.coo_matrix}[cont](A)
+                case2 = dict(case, dtype=np.dtype(dt).name, binary=binary, sparse=sparse, container=cont)
+                res.ev("dtypes/%s/%s/b%d/%s" % (np.dtype(dt).name, cont, binary, sparse))
+                try:
+                    snap = A.copy()
+                    op4.write(fname, "A", X, binary=binary, sparse=sparse)
+                    ln, lm, lf, lt = op4.load(fname, into="list")
+                    got = todense(lm[0])
+                    if got.shape != want.shape or not np.array_equal(got, want):
+                        res.viol(case2, "a %s matrix (%s) written with sparse=%s binary=%s reads back as %s, its values are %s"
+                                 % (np.dtype(dt).name, cont, sparse, binary, got.tolist()[:2], want.tolist()[:2]), kind="dtypes-values")
+                    elif lt[0] != (4 if np.dtype(dt).kind == "c" else 2):
+                        res.viol(case2, "a %s matrix is stored with type %s (pyYeti writes double precision: 2 real / 4 complex)" % (np.dtype(dt).name, lt[0]), kind="dtypes-type")
+                    if not np.array_equal(A, snap):
+                        res.viol(case2, "op4.write modified the caller's matrix", kind="dtypes-mutated")
+                except Exception as e:  # noqa
+                    res.viol(case2, "write/read of a %s matrix (%s, sparse=%s, binary=%s) raised %r" % (np.dtype(dt).name, cont, sparse, binary, e), kind="dtypes-raise")
         return
     if k == "names":
         M = np.array([[1.0, 0.0], [2.0, 3.0]])
